@@ -12,6 +12,7 @@ import (
 	"errors"
 	"fmt"
 	"net"
+	"strconv"
 	"strings"
 	"testing"
 	"time"
@@ -64,22 +65,46 @@ func (c36log) Errorf(format string, a ...interface{})    {}
 func (c36log) Fatalf(format string, a ...interface{})    {}
 
 // c36new makes a fake connection from remote "ip:port"; the peer id is
-// derived from the address, its listen port from the port.
+// derived from the address.  The peer description is what the real handshake
+// would produce: Addr is the remote address of the connection and the peer's
+// listen port is its own (a dialled "ip:port" is the peer's listen address; a
+// peer connecting from the ephemeral port p listens on 20000+p), so that
+// several nodes behind one ip have distinct listen addresses.
 func c36new(remote string) *c36conn {
 	var h uint64 = 1469598103934665603
 	for i := 0; i < len(remote); i++ {
 		h = (h ^ uint64(remote[i])) * 1099511628211
 	}
 	id := common.PseudoPeerIdFromUint64(h | 1)
-	return &c36conn{remote: remote, p: &peer.PeerInfo{Id: id, Port: 20338, SoftVersion: common.MIN_VERSION_FOR_DHT}}
+	port := 20338
+	if _, ps, err := net.SplitHostPort(remote); err == nil {
+		if n, err := strconv.Atoi(ps); err == nil && n > 0 {
+			port = n
+			if port < 20000 {
+				port += 20000
+			}
+		}
+	}
+	return &c36conn{remote: remote, p: &peer.PeerInfo{Id: id, Port: uint16(port), Addr: remote, SoftVersion: common.MIN_VERSION_FOR_DHT}}
 }
 
+// A scenario: limits, connections established before the threads start, and
+// one operation list per thread.
+//   pre:     "ip:port" or "in ip:port" (inbound, through AcceptConnect) | "out ip:port" (outbound, through Connect)
+//   thread:  operations separated by ";", run sequentially by that thread:
+//            "accept ip:port" | "dial ip:port" | "close i" (i indexes pre) |
+//            "close own" (the connection this thread established most recently; skipped if that attempt was refused)
 type c36scenario struct {
 	name              string
 	maxIn, perIP, out uint
-	pre               []string // inbound connections established before the threads start
-	threads           []string // "accept ip:port" | "dial ip:port" | "close i" (i indexes pre)
+	pre               []string
+	threads           []string
 }
+
+const (
+	c36X = "1.1.1.1"
+	c36Y = "2.2.2.2"
+)
 
 var c36scenarios = []c36scenario{
 	{"2 accepts, same ip, inbound limit 1", 1, 8, 8, nil, []string{"accept 1.1.1.1:1001", "accept 1.1.1.1:1002"}},
@@ -94,13 +119,66 @@ var c36scenarios = []c36scenario{
 	{"2 dials of the same address, outbound limit 1", 8, 8, 1, nil, []string{"dial 1.1.1.1:20338", "dial 1.1.1.1:20338"}},
 	{"2 dials of the same address + another, outbound limit 2", 8, 8, 2, nil, []string{"dial 1.1.1.1:20338", "dial 1.1.1.1:20338", "dial 2.2.2.2:20338"}},
 	{"2 accepts from the same remote address, inbound limit 1", 1, 8, 8, nil, []string{"accept 1.1.1.1:1001", "accept 1.1.1.1:1001"}},
+
+	// both directions on one remote ip (several nodes behind one address): a connection of one direction
+	// is established and closed while the other direction is at its limit
+	{"1 thread: dial+close then accept, same ip at per-ip limit 2", 8, 2, 8, []string{"in 1.1.1.1:1001", "in 1.1.1.1:1002"},
+		[]string{"dial 1.1.1.1:30001; close own; accept 1.1.1.1:1003"}},
+	{"dial+close vs accept, same ip at per-ip limit 1", 8, 1, 8, []string{"in 1.1.1.1:1001"},
+		[]string{"dial 1.1.1.1:30001; close own", "accept 1.1.1.1:1002"}},
+	{"dial+close vs 2 accepts, same ip, per-ip limit 2", 8, 2, 8, []string{"in 1.1.1.1:1001"},
+		[]string{"dial 1.1.1.1:30001; close own", "accept 1.1.1.1:1002", "accept 1.1.1.1:1003"}},
+	{"close of an outbound connection vs accept, same ip at per-ip limit 1", 8, 1, 8, []string{"in 1.1.1.1:1001", "out 1.1.1.1:30001"},
+		[]string{"close 1", "accept 1.1.1.1:1002"}},
+	{"dial+close vs accept from another ip, inbound limit 1", 1, 8, 8, []string{"in 1.1.1.1:1001"},
+		[]string{"dial 1.1.1.1:30001; close own", "accept 2.2.2.2:1001"}},
+	{"1 thread: inbound close then dial, same ip at outbound limit 1", 8, 8, 1, []string{"in 1.1.1.1:1001", "out 1.1.1.1:30001"},
+		[]string{"close 0; dial 1.1.1.1:30002"}},
+	{"close of an inbound connection vs dial, outbound limit 1", 8, 8, 1, []string{"in 1.1.1.1:1001", "out 2.2.2.2:30001"},
+		[]string{"close 0", "dial 1.1.1.1:30002"}},
+	{"accept+close vs dial, same ip at outbound limit 1", 8, 8, 1, []string{"out 1.1.1.1:30001"},
+		[]string{"accept 1.1.1.1:1001; close own", "dial 1.1.1.1:30002"}},
+	{"accept+close vs accept vs dial+close, one ip, limits 1/1/1", 1, 1, 1, nil,
+		[]string{"accept 1.1.1.1:1001; close own", "accept 1.1.1.1:1002", "dial 1.1.1.1:30001; close own"}},
+}
+
+type c36op struct{ kind, arg string }
+
+func c36parse(th string) []c36op {
+	var ops []c36op
+	for _, part := range strings.Split(th, ";") {
+		f := strings.Fields(part)
+		if len(f) != 2 || (f[0] != "accept" && f[0] != "dial" && f[0] != "close") {
+			panic("bad scenario operation: " + part)
+		}
+		ops = append(ops, c36op{f[0], f[1]})
+	}
+	return ops
+}
+
+// c36handle is a connection the controller handed to a caller: it is an
+// established connection from the moment AcceptConnect/Connect returned it
+// until the caller starts closing it (closing is set just before Close).
+type c36handle struct {
+	inbound bool
+	addr    string
+	ip      string
+	conn    net.Conn
+	closing bool
+}
+
+func c36handleOf(inbound bool, addr string, c net.Conn) *c36handle {
+	ip, _ := common.ParseIPAddr(addr)
+	return &c36handle{inbound: inbound, addr: addr, ip: ip, conn: c}
 }
 
 type c36inst struct {
-	ctl     *ConnectController
-	sc      c36scenario
-	success []bool
-	conns   []net.Conn
+	ctl *ConnectController
+	sc  c36scenario
+	ops [][]c36op
+	res [][]byte       // per thread, per operation: '1' done/established, '0' refused, '-' skipped
+	pre []*c36handle   // connections established before the threads start (and, in the sequential part, all connections)
+	th  [][]*c36handle // connections established by each thread (only thread i appends to th[i])
 }
 
 var c36key *common.PeerKeyId
@@ -113,46 +191,141 @@ func c36build(sc c36scenario) *c36inst {
 	key := c36key
 	info := &peer.PeerInfo{Id: key.Id, Port: 20338, SoftVersion: common.MIN_VERSION_FOR_DHT}
 	opt := NewConnCtrlOption().MaxInBound(sc.maxIn).MaxInBoundPerIp(sc.perIP).MaxOutBound(sc.out).WithDialer(c36dialer{})
-	in := &c36inst{ctl: NewConnectController(info, key, opt, c36log{}), sc: sc, success: make([]bool, len(sc.threads))}
+	in := &c36inst{ctl: NewConnectController(info, key, opt, c36log{}), sc: sc}
+	for _, th := range sc.threads {
+		ops := c36parse(th)
+		in.ops = append(in.ops, ops)
+		in.res = append(in.res, []byte(strings.Repeat("0", len(ops))))
+		in.th = append(in.th, nil)
+	}
 	for _, a := range sc.pre {
-		_, c, err := in.ctl.AcceptConnect(c36new(a)) // no scheduler active yet: runs straight through
+		// no scheduler active yet: these run straight through
+		f := strings.Fields(a)
+		inbound, addr := true, f[len(f)-1]
+		if len(f) == 2 && f[0] == "out" {
+			inbound = false
+		}
+		var c net.Conn
+		var err error
+		if inbound {
+			_, c, err = in.ctl.AcceptConnect(c36new(addr))
+		} else {
+			_, c, err = in.ctl.Connect(addr)
+		}
 		if err != nil {
 			panic("pre-connection refused: " + err.Error())
 		}
-		in.conns = append(in.conns, c)
+		in.pre = append(in.pre, c36handleOf(inbound, addr, c))
 	}
 	return in
 }
 
+// accept / dial / closeHandle drive the real controller and keep the ledger
+// of handed-out connections.
+func (in *c36inst) accept(addr string) *c36handle {
+	_, c, err := in.ctl.AcceptConnect(c36new(addr))
+	if err != nil || c == nil {
+		return nil
+	}
+	return c36handleOf(true, addr, c)
+}
+
+func (in *c36inst) dial(addr string) *c36handle {
+	_, c, err := in.ctl.Connect(addr)
+	if err != nil || c == nil {
+		return nil
+	}
+	return c36handleOf(false, addr, c)
+}
+
+func (in *c36inst) closeHandle(h *c36handle) {
+	h.closing = true
+	h.conn.Close()
+}
+
 func (in *c36inst) bodies() []func() {
 	var bs []func()
-	for i, th := range in.sc.threads {
-		i, f := i, strings.Fields(th)
-		switch f[0] {
-		case "accept":
-			bs = append(bs, func() {
-				_, c, err := in.ctl.AcceptConnect(c36new(f[1]))
-				in.success[i] = err == nil && c != nil
-			})
-		case "dial":
-			bs = append(bs, func() {
-				_, c, err := in.ctl.Connect(f[1])
-				in.success[i] = err == nil && c != nil
-			})
-		case "close":
-			bs = append(bs, func() {
-				var k int
-				fmt.Sscan(f[1], &k)
-				in.conns[k].Close()
-				in.success[i] = true
-			})
-		}
+	for i := range in.ops {
+		i := i
+		bs = append(bs, func() {
+			var own *c36handle
+			for k, op := range in.ops[i] {
+				switch op.kind {
+				case "accept", "dial":
+					var h *c36handle
+					if op.kind == "accept" {
+						h = in.accept(op.arg)
+					} else {
+						h = in.dial(op.arg)
+					}
+					own = h
+					if h != nil {
+						in.th[i] = append(in.th[i], h)
+						in.res[i][k] = '1'
+					}
+				case "close":
+					var h *c36handle
+					if op.arg == "own" {
+						h, own = own, nil
+					} else {
+						var j int
+						fmt.Sscan(op.arg, &j)
+						h = in.pre[j]
+					}
+					if h == nil {
+						in.res[i][k] = '-'
+						continue
+					}
+					in.closeHandle(h)
+					in.res[i][k] = '1'
+				}
+			}
+		})
 	}
 	return bs
 }
 
-// check evaluates the limits on the controller's records (no thread is
-// running while the scheduler calls it, so unlocked reads are safe).
+// established counts the connections handed to callers and not (being) closed.
+func (in *c36inst) established() (nin, nout uint, perip map[string]uint) {
+	perip = map[string]uint{}
+	count := func(h *c36handle) {
+		if h.closing {
+			return
+		}
+		if h.inbound {
+			nin++
+			perip[h.ip]++
+		} else {
+			nout++
+		}
+	}
+	for _, h := range in.pre {
+		count(h)
+	}
+	for _, hs := range in.th {
+		for _, h := range hs {
+			count(h)
+		}
+	}
+	return
+}
+
+func c36maxIP(perip map[string]uint) (string, uint) {
+	bip, bn := "", uint(0)
+	for ip, n := range perip {
+		if n > bn || (n == bn && ip < bip) {
+			bip, bn = ip, n
+		}
+	}
+	return bip, bn
+}
+
+// check evaluates the limits (a) on the controller's records and (b) on the
+// connections actually handed to callers and not closed, whatever the records
+// say.  No thread is running while the scheduler calls it, so unlocked reads
+// are safe.  On a correct controller (b) is implied by (a): a handed-out
+// connection is recorded before it is returned and the record is removed only
+// by its Close.
 func (in *c36inst) check(final bool) string {
 	c := in.ctl
 	nin := uint(c.inoutbounds[INBOUND_INDEX].Size())
@@ -169,66 +342,293 @@ func (in *c36inst) check(final bool) string {
 		perip[ip]++
 		return true
 	})
-	for ip, n := range perip {
-		if n > in.sc.perIP {
-			return fmt.Sprintf("per-ip-limit: %d inbound connections from %s, limit %d", n, ip, in.sc.perIP)
-		}
+	if ip, n := c36maxIP(perip); n > in.sc.perIP {
+		return fmt.Sprintf("per-ip-limit: %d inbound connections from %s, limit %d", n, ip, in.sc.perIP)
 	}
-	if final {
-		// connections handed to callers (and not closed) are established connections, whatever the records say
-		estIn, estOut := uint(len(in.sc.pre)), uint(0)
-		for i, th := range in.sc.threads {
-			if !in.success[i] {
-				continue
-			}
-			switch strings.Fields(th)[0] {
-			case "accept":
-				estIn++
-			case "dial":
-				estOut++
-			case "close":
-				estIn--
-			}
-		}
-		if estIn > in.sc.maxIn {
-			return fmt.Sprintf("inbound-limit: %d inbound connections were handed to callers and are open, limit %d (records show %d)", estIn, in.sc.maxIn, nin)
-		}
-		if estOut > in.sc.out {
-			return fmt.Sprintf("outbound-limit: %d outbound connections were handed to callers and are open, limit %d (records show %d)", estOut, in.sc.out, nout)
-		}
+	estIn, estOut, estIP := in.established()
+	if estIn > in.sc.maxIn {
+		return fmt.Sprintf("inbound-limit: %d inbound connections were handed to callers and are open, limit %d (records show %d)", estIn, in.sc.maxIn, nin)
+	}
+	if estOut > in.sc.out {
+		return fmt.Sprintf("outbound-limit: %d outbound connections were handed to callers and are open, limit %d (records show %d)", estOut, in.sc.out, nout)
+	}
+	if ip, n := c36maxIP(estIP); n > in.sc.perIP {
+		return fmt.Sprintf("per-ip-limit: %d inbound connections from %s were handed to callers and are open, limit %d (records show %d)", n, ip, in.sc.perIP, perip[ip])
 	}
 	return ""
 }
 
 func (in *c36inst) outcome() string {
-	s := ""
-	for _, ok := range in.success {
-		if ok {
-			s += "1"
-		} else {
-			s += "0"
+	multi := false
+	for _, r := range in.res {
+		if len(r) > 1 {
+			multi = true
 		}
 	}
-	return fmt.Sprintf("ok=%s in=%d out=%d", s, in.ctl.inoutbounds[INBOUND_INDEX].Size(), in.ctl.inoutbounds[OUTBOUND_INDEX].Size())
+	sep := ""
+	if multi {
+		sep = "|"
+	}
+	parts := make([]string, len(in.res))
+	for i, r := range in.res {
+		parts[i] = string(r)
+	}
+	return fmt.Sprintf("ok=%s in=%d out=%d", strings.Join(parts, sep), in.ctl.inoutbounds[INBOUND_INDEX].Size(), in.ctl.inoutbounds[OUTBOUND_INDEX].Size())
 }
 
 type c36case struct {
 	Scenario string   `json:"scenario"`
 	Threads  []string `json:"threads"`
 	Bound    int      `json:"preemption_bound"`
-	Schedule []int    `json:"schedule"`
+	Schedule []int    `json:"schedule"` // scheduler choices (concurrent scenarios) or operation codes (sequential part)
 	Steps    []string `json:"steps"`
+}
+
+// ---------------------------------------------------------------------------
+// Sequential part: the trivial schedules of the property's quantifier (one
+// operation completes before the next starts), but over ALL call histories:
+// every sequence of at most D operations from
+//   accept from X | accept from Y | dial X | dial Y | close the j-th open connection
+// is run on a fresh real controller and the same oracle (check) is evaluated
+// after every operation.  Operation codes: 0 accept X, 1 accept Y, 2 dial X,
+// 3 dial Y, 4+j close the j-th open connection (in order of establishment).
+// A new connection uses the lowest port of its ip that no open connection of
+// the same direction uses (1001.. for inbound, 30001.. for dialled addresses),
+// so addresses are re-used after a close.  Histories are NOT merged on a state
+// key: equal records do not imply equal futures if the controller keeps other
+// bookkeeping, and finding that out is the point.
+
+type c36seqcfg struct{ maxIn, perIP, out uint }
+
+var c36seqcfgs = []c36seqcfg{{1, 1, 1}, {2, 1, 1}, {2, 2, 1}, {3, 2, 1}, {3, 2, 2}, {3, 1, 2}}
+
+func (c c36seqcfg) name() string {
+	return fmt.Sprintf("sequential, limits inbound %d / per-ip %d / outbound %d", c.maxIn, c.perIP, c.out)
+}
+
+var c36seqIPs = []string{c36X, c36Y}
+
+type c36seq struct {
+	in    *c36inst
+	label []string // per operation, e.g. "accept X:ok", "close out X"
+	shape []string // per operation without the result, for violation keys
+	class string   // outcome class of the last operation
+	open  []*c36handle
+}
+
+func c36ipName(ip string) string {
+	if ip == c36X {
+		return "X"
+	}
+	return "Y"
+}
+
+func (q *c36seq) freeAddr(inbound bool, ip string) string {
+	base := 30001
+	if inbound {
+		base = 1001
+	}
+	for p := base; ; p++ {
+		a := ip + ":" + strconv.Itoa(p)
+		used := false
+		for _, h := range q.open {
+			if h.inbound == inbound && h.addr == a {
+				used = true
+			}
+		}
+		if !used {
+			return a
+		}
+	}
+}
+
+// apply runs one operation; it reports false if the code is not enabled.
+func (q *c36seq) apply(code int) bool {
+	in := q.in
+	if code >= 4 {
+		j := code - 4
+		if j >= len(q.open) {
+			return false
+		}
+		h := q.open[j]
+		q.open = append(append([]*c36handle{}, q.open[:j]...), q.open[j+1:]...)
+		in.closeHandle(h)
+		dir := "out"
+		if h.inbound {
+			dir = "in"
+		}
+		q.shape = append(q.shape, "close-"+dir+"-"+c36ipName(h.ip))
+		q.label = append(q.label, "close "+dir+" "+h.addr)
+		q.class = "seq:close:" + dir
+		return true
+	}
+	ip := c36seqIPs[code%2]
+	inbound := code < 2
+	estIn, estOut, estIP := in.established()
+	// did an earlier operation close a connection of the OTHER direction (to the same ip for the per-ip limit)?
+	otherClosed, otherClosedIP := false, false
+	for _, h := range in.pre {
+		if h.closing && h.inbound != inbound {
+			otherClosed = true
+			if h.ip == ip {
+				otherClosedIP = true
+			}
+		}
+	}
+	addr := q.freeAddr(inbound, ip)
+	var h *c36handle
+	kind := "dial"
+	if inbound {
+		kind = "accept"
+		h = in.accept(addr)
+	} else {
+		h = in.dial(addr)
+	}
+	q.shape = append(q.shape, kind+"-"+c36ipName(ip))
+	if h != nil {
+		in.pre = append(in.pre, h)
+		q.open = append(q.open, h)
+		q.label = append(q.label, kind+" "+addr+": established")
+		q.class = "seq:" + kind + ":established"
+		return true
+	}
+	q.label = append(q.label, kind+" "+addr+": refused")
+	switch {
+	case inbound && estIn >= in.sc.maxIn:
+		q.class = "seq:accept:refused(inbound limit reached)"
+		if otherClosed {
+			q.class += ", an outbound connection was closed before"
+		}
+	case inbound && estIP[ip] >= in.sc.perIP:
+		q.class = "seq:accept:refused(per-ip limit reached)"
+		if otherClosedIP {
+			q.class += ", an outbound connection to that ip was closed before"
+		}
+	case !inbound && estOut >= in.sc.out:
+		q.class = "seq:dial:refused(outbound limit reached)"
+		if otherClosed {
+			q.class += ", an inbound connection was closed before"
+		}
+	default:
+		q.class = "seq:" + kind + ":refused below the limits"
+	}
+	return true
+}
+
+// c36seqExec runs an operation sequence on a fresh controller.  The oracle is
+// evaluated after every operation; the first violation is returned together
+// with the number of operations executed up to it.
+func c36seqExec(cfg c36seqcfg, codes []int) (q *c36seq, enabled bool, viol string, at int) {
+	sc := c36scenario{name: cfg.name(), maxIn: cfg.maxIn, perIP: cfg.perIP, out: cfg.out}
+	q = &c36seq{in: c36build(sc)}
+	for i, c := range codes {
+		if !q.apply(c) {
+			return q, false, "", i
+		}
+		if v := q.in.check(false); v != "" {
+			return q, true, v, i + 1
+		}
+	}
+	return q, true, "", len(codes)
+}
+
+// c36seqKey: violated limit + the shape of the history (operation kinds and
+// ips, immediate repetitions collapsed).
+func c36seqKey(viol string, shape []string) string {
+	var sh []string
+	for _, s := range shape {
+		if len(sh) == 0 || sh[len(sh)-1] != s {
+			sh = append(sh, s)
+		}
+	}
+	return "seq:" + strings.SplitN(viol, ":", 2)[0] + "@" + strings.Join(sh, ",")
+}
+
+func c36seqReport(r *vh.Run, cfg c36seqcfg, codes []int, q *c36seq, viol string, at int) {
+	cs := c36case{Scenario: cfg.name(), Schedule: append([]int{}, codes[:at]...), Steps: q.label}
+	r.Violation(c36seqKey(viol, q.shape), fmt.Sprintf("%s, operations %v: %s", cfg.name(), q.label, viol), cs)
+}
+
+// c36seqRun enumerates the histories of one configuration by increasing
+// length (so the first violation is a shortest one, and the same one on every
+// tier) and stops that configuration at its first violation.
+func c36seqRun(r *vh.Run, cfg c36seqcfg, depth int) {
+	var nseq, nops int64
+	classes := map[string]int64{}
+	states := map[string]bool{}
+	capped, found := false, false
+	for L := 1; L <= depth && !capped && !found; L++ {
+		var rec func(prefix []int)
+		rec = func(prefix []int) {
+			if capped || found {
+				return
+			}
+			if nseq&1023 == 0 && r.Expired() {
+				capped = true
+				return
+			}
+			q, _, viol, at := c36seqExec(cfg, prefix)
+			nops += int64(len(prefix))
+			if len(prefix) == L {
+				nseq++
+				classes[q.class]++
+				ein, eout, eip := q.in.established()
+				states[fmt.Sprintf("%d/%d/%d/%d", ein, eout, eip[c36X], eip[c36Y])] = true
+				if viol != "" {
+					found = true
+					c36seqReport(r, cfg, prefix, q, viol, at)
+				}
+				return
+			}
+			for c := 0; c < 4+len(q.open); c++ {
+				rec(append(append(make([]int, 0, len(prefix)+1), prefix...), c))
+			}
+		}
+		rec(nil)
+	}
+	r.Eval(nseq)
+	r.Trace(nseq)
+	r.State(nseq)
+	r.Trans(nops)
+	for c, n := range classes {
+		r.ClassN(c, n)
+	}
+	r.Add("seq_histories", nseq)
+	r.Set("seq_distinct_established_counts/"+cfg.name(), len(states))
+	if capped {
+		r.Capped(cfg.name() + ": deadline")
+	}
 }
 
 func TestVerif_C36(t *testing.T) {
 	r := vh.Start(t, "C36", "limits")
 	defer r.Finish()
 	maxBound := r.Pick(2, 4)
-	r.Rule("scenarios of 2–3 real goroutines calling AcceptConnect / Connect / Conn.Close on one real ConnectController (limits 1–2); every schedule with at most B preemptions, B iterated 0..max, scheduling points before every mutex/atomic operation and at the handshake/dial (network I/O); limits evaluated at every scheduling point and at the end; states = scheduling points visited, transitions = scheduling decisions, traces = complete executions of the real code")
+	seqDepth := r.Pick(6, 7)
+	r.Rule("(1) scenarios of 1–3 real goroutines, each a short list of AcceptConnect / Connect / Conn.Close calls on one real ConnectController (limits 1–2, optionally with pre-established inbound and outbound connections, both directions on one remote ip included); every schedule with at most B preemptions, B iterated 0..max, scheduling points before every mutex/atomic operation and at the handshake/dial (network I/O); (2) sequential histories: every sequence of at most D operations from {accept from ip X|Y, dial ip X|Y, close the j-th open connection} on a fresh controller, for 6 limit configurations, no state merging; in both parts the inbound, per-ip and outbound limits are evaluated on the connection records and on the connections handed to callers and not closed, at every scheduling point / after every operation; states = scheduling points resp. histories visited, transitions = scheduling decisions resp. operations executed, traces = complete executions of the real code")
 	r.Assume("sequentially consistent memory; the real handshake is modelled as one scheduling point (it shares no state between connections)")
 	var rc c36case
 	replay := r.ReplayCase(&rc) && rc.Scenario != ""
 	totalExec := int64(0)
+	for ci, cfg := range c36seqcfgs {
+		if replay {
+			if rc.Scenario != cfg.name() {
+				continue
+			}
+			q, enabled, viol, at := c36seqExec(cfg, rc.Schedule)
+			if !enabled {
+				t.Fatalf("VERIF-INFRA replay: operation %d of %v is not enabled", at, rc.Schedule)
+			}
+			if viol != "" {
+				c36seqReport(r, cfg, rc.Schedule, q, viol, at)
+			}
+			continue
+		}
+		if !r.Mine(len(c36scenarios) + ci) {
+			continue
+		}
+		c36seqRun(r, cfg, seqDepth)
+	}
 	for si, sc := range c36scenarios {
 		if !r.Mine(si) || (replay && rc.Scenario != sc.name) {
 			continue
@@ -290,9 +690,8 @@ func TestVerif_C36(t *testing.T) {
 			r.Sample(map[string]interface{}{"scenario": sc.name, "threads": sc.threads})
 		}
 	}
-	r.Bound(fmt.Sprintf("preemption bound 0..%d per scenario; %d scenarios", maxBound, len(c36scenarios)))
+	r.Bound(fmt.Sprintf("preemption bound 0..%d per scenario, %d scenarios of at most 3 threads; sequential histories of length <= %d over 4 connect operations + close of any open connection, %d limit configurations", maxBound, len(c36scenarios), seqDepth, len(c36seqcfgs)))
 }
-
 
 // TestVerif_C36_race: the same scenario bodies free-running (no scheduler: the
 // vsync types fall back to the real sync primitives) under the Go race
